@@ -3,7 +3,8 @@
    AstPostProcessor / the ast.py copy functions (Cats/Expand.v) instantiated with the strings and operators regenerated from
    /repo (Gen/ExpandOps.v); the right-hand specifications (spec_name, spec_type, prefix_copy, expand_member, Flat, flatten,
    acyclic, ... in part 0 / part 3 of Cats/ExpandProofs.v) are fixed text with literal strings. *)
-From Symv Require Import Cats.AstRender Cats.Expand Cats.ExpandProofs.
+From Symv Require Import Cats.AstRender Cats.Expand Cats.ExpandProofs Cats.ExpandInheritProofs.
+From Coq Require Import Permutation.
 Open Scope string_scope.
 
 (* ---- prefix_copy_spec: name x for `__value__`, x_name otherwise; size / sizeref / sizeof / condition / sort-key references re-pointed;
@@ -85,12 +86,51 @@ Theorem flatten_is_the_splice : forall s fs o,
 Proof. exact (fun s fs o => conj (fun f => flatten_sound f s fs o) (conj (fun f => Flat_flatten f s fs o) (Flat_fun s fs o))). Qed.
 Print Assumptions flatten_is_the_splice.
 
-(* inherited attributes and factory type.  PARTIAL: proved for schemas that declare every struct after the structs it inlines
+(* inherited attributes and factory type, FULL statement: any declaration order, any nesting depth (the fuel S (length s) of
+   expand_unnamed is enough: expand_unnamed_fuel_bound).  For every acyclic schema with unique names, after the pass
+   - the attributes of a struct are a permutation of its own followed by `inherited`: the attributes of every struct inlined below
+     it, one copy per occurrence in the inline tree (relation Inh = function inherited, depth-first order; the code's order depends
+     on the processing order, hence Permutation);
+   - its factory type is its own, or a candidate (Cand: the name of an abstract struct inlined below it, or a factory type declared by
+     a struct inlined below it), and it HAS one whenever it had one or there is a candidate. *)
+Theorem expand_unnamed_inherit : forall s, NoDup (map decl_name s) -> acyclic s = true ->
+  exists s', expand_unnamed s = Ok s' /\
+  forall i X0, nth_error s i = Some (DStruct X0) ->
+    exists X, nth_error s' i = Some (DStruct X)
+      /\ Inh s (s_fields X0) (inherited (length s) s (s_fields X0))
+      /\ Permutation (attrs_list (s_attrs X)) (attrs_list (s_attrs X0) ++ inherited (length s) s (s_fields X0))%list
+      /\ (forall f, s_factory_type X = Some f -> s_factory_type X0 = Some f \/ Cand s (s_fields X0) f)
+      /\ (forall f0, s_factory_type X0 = Some f0 \/ Cand s (s_fields X0) f0 -> exists f, s_factory_type X = Some f).
+Proof. exact ExpandInheritProofs.expand_unnamed_inherit. Qed.
+Print Assumptions expand_unnamed_inherit.
+
+(* the same for schemas as the parser produces them (no struct carries a factory type before the pass): the factory type stays None
+   when no abstract struct is (transitively) inlined, and otherwise is the name of an abstract struct that is (which one, when an
+   abstract struct inlines another abstract struct, depends on the declaration order -- see expand_unnamed_inherit_partial) *)
+Theorem expand_unnamed_inherit_parsed : forall s, NoDup (map decl_name s) -> acyclic s = true -> no_declared_factory s ->
+  exists s', expand_unnamed s = Ok s' /\
+  forall i X0, nth_error s i = Some (DStruct X0) ->
+    exists X, nth_error s' i = Some (DStruct X)
+      /\ Permutation (attrs_list (s_attrs X)) (attrs_list (s_attrs X0) ++ inherited (length s) s (s_fields X0))%list
+      /\ ((forall f, ~ inlines_abstract s (s_fields X0) f) -> s_factory_type X = None)
+      /\ ((exists f, inlines_abstract s (s_fields X0) f) -> exists f, s_factory_type X = Some f /\ inlines_abstract s (s_fields X0) f).
+Proof. exact ExpandInheritProofs.expand_unnamed_inherit_parsed. Qed.
+Print Assumptions expand_unnamed_inherit_parsed.
+
+(* the specification is a function: Inh is functional and agrees with `inherited` at any sufficient depth bound *)
+Theorem inherited_is_the_tree : forall s fs o f, Inh s fs o -> term f s fs = true -> inherited f s fs = o.
+Proof. exact (fun s fs o f H => Inh_inherited s fs o H f). Qed.
+Print Assumptions inherited_is_the_tree.
+
+(* inherited attributes and factory type, CLOSED FORM (exact order of the attributes, exact factory type) for schemas that declare
+   every struct after the structs it inlines.  Named _partial because of that premise; the statement for every declaration order is
+   expand_unnamed_inherit above.
+   Proved for schemas that declare every struct after the structs it inlines
    (all shipped schemas; then one execution of the loop body finishes a struct): the i-th struct becomes
    splice_spec (the finished declarations before it): its attributes are its own followed by the non-empty attribute lists of its
    targets from left to right (each target's list already holding what that target inherited), its factory_type is given by the
    last unnamed inline that is abstract (its name) or has inherited a factory type (that one).
-   Full statement, NOT proved for other declaration orders (there the code's result depends on the processing order:
+   Statement for other declaration orders = expand_unnamed_inherit (there the code's result depends on the processing order:
    breadth-first attribute order, and an abstract struct that inlines another abstract struct may record either):
      forall s, NoDup (map decl_name s) -> acyclic s = true -> exists s', expand_unnamed s = Ok s' /\
        forall i X0, nth_error s i = Some (DStruct X0) -> exists X, nth_error s' i = Some (DStruct X) /\
@@ -292,3 +332,41 @@ Proof.
       inversion Hr as [t2 c2 fs2 Hin2|t2 c2 T2 fs2 u2 Hin2 Hl2 Hr2]; subst; cbn in Hin2; destruct Hin2 as [E2|[]]; discriminate E2.
 Qed.
 Print Assumptions premises_nonvacuous.
+
+(* ---- non-vacuity of expand_unnamed_inherit / expand_unnamed_inherit_parsed: the example schema in REVERSED declaration order (Leaf
+        first, its targets after it: not targets_first, the loop body runs three times for Leaf and the attributes arrive breadth-first);
+        all premises hold, Leaf inlines the abstract Root three levels down, inherits the two attributes and records Root *)
+Definition example_reversed : list decl := rev example_after_named.
+Example inherit_nonvacuous :
+  NoDup (map decl_name example_reversed) /\ acyclic example_reversed = true /\ no_declared_factory example_reversed
+  /\ targets_first_b example_reversed = false
+  /\ (let L0 := ex_struct_named example_reversed "Leaf" in
+      nth_error example_reversed 0 = Some (DStruct L0)
+      /\ inherited (length example_reversed) example_reversed (s_fields L0)
+         = [{| at_name := "is_aligned"; at_values := [] |}; {| at_name := "size"; at_values := [AvStr "size"] |}]
+      /\ inlines_abstract example_reversed (s_fields L0) "Root"
+      /\ Cand example_reversed (s_fields L0) "Root"
+      /\ match expand_unnamed example_reversed with
+         | Ok s' => exists L, nth_error s' 0 = Some (DStruct L) /\ s_factory_type L = Some "Root"
+                              /\ s_attrs L = Some [{| at_name := "is_aligned"; at_values := [] |}; {| at_name := "size"; at_values := [AvStr "size"] |}]
+         | _ => False
+         end)
+  /\ (let E0 := ex_struct_named example_reversed "Elem" in
+      (forall f, ~ inlines_abstract example_reversed (s_fields E0) f) /\ In (DStruct E0) example_reversed).
+Proof.
+  split; [apply nodup_b_sound; vm_compute; reflexivity|]. split; [vm_compute; reflexivity|].
+  split.
+  { intros st Hin. vm_compute in Hin. repeat (destruct Hin as [E|Hin]; [try discriminate E; injection E as <-; reflexivity|]). contradiction. }
+  split; [vm_compute; reflexivity|]. split.
+  - cbv zeta. split; [vm_compute; reflexivity|]. split; [vm_compute; reflexivity|].
+    assert (HR : inlines_abstract example_reversed (s_fields (ex_struct_named example_reversed "Leaf")) "Root").
+    { eexists. split; [|split; [vm_compute; reflexivity|reflexivity]].
+      eapply Reach_deep; [vm_compute; left; reflexivity|vm_compute; reflexivity|].
+      eapply Reach_deep; [vm_compute; right; left; reflexivity|vm_compute; reflexivity|].
+      eapply Reach_here. vm_compute. left. reflexivity. }
+    split; [exact HR|]. split; [apply inlines_abstract_Cand; exact HR|].
+    vm_compute. eexists. split; [reflexivity|]. split; reflexivity.
+  - cbv zeta. split; [|vm_compute; tauto].
+    intros f (T & Hr & _). inversion Hr as [t c fs Hin|t c T' fs u Hin Hl Hr']; subst; vm_compute in Hin; intuition discriminate.
+Qed.
+Print Assumptions inherit_nonvacuous.
